@@ -335,6 +335,7 @@ func c08History(d c08Desc, seed int64, dir string, res *c08Result) ([]c08Op, []c
 		}
 	}
 	var st c08Store
+	var cbAlways, cbOnce, cbAlways2 int64
 	switch d.Kind {
 	case "blockstore":
 		p := filepath.Join(dir, fmt.Sprintf("h%d.car", seed))
@@ -368,8 +369,11 @@ func c08History(d c08Desc, seed int64, dir string, res *c08Result) ([]c08Op, []c
 		c2 := d.Cfg
 		c2.V1 = false
 		dw := deferred.NewDeferredCarWriterForStream(iofault.PlainWriter{M: mf}, roots, c2.Opts()...)
-		var cbCount int64
-		dw.OnPut(func(int) { atomic.AddInt64(&cbCount, 1) }, false) // registered before the goroutines start
+		// listeners are registered before the goroutines start (registration is not a concurrent operation):
+		// one permanent, one once-only in the middle, another permanent
+		dw.OnPut(func(int) { atomic.AddInt64(&cbAlways, 1) }, false)
+		dw.OnPut(func(int) { atomic.AddInt64(&cbOnce, 1) }, true)
+		dw.OnPut(func(int) { atomic.AddInt64(&cbAlways2, 1) }, false)
 		st = &c08DW{dw: dw, mf: mf, blks: blks}
 	}
 
@@ -487,6 +491,22 @@ func c08History(d c08Desc, seed int64, dir string, res *c08Result) ([]c08Op, []c
 	var ops []c08Op
 	for _, l := range perClient {
 		ops = append(ops, l...)
+	}
+
+	// ---- deferred writer: put listeners fire once per Put, in spite of concurrency; once-only ones exactly once
+	if d.Kind == "deferred" {
+		puts := 0
+		for _, o := range ops {
+			if o.Kind == "put" && o.Out != "closed" {
+				puts++
+			}
+		}
+		if int(cbAlways) != puts || int(cbAlways2) != puts {
+			addV("OnPut/permanent-listener-count", fmt.Sprintf("permanent listeners fired %d and %d times for %d Puts", cbAlways, cbAlways2, puts), nil)
+		}
+		if (puts > 0 && cbOnce != 1) || (puts == 0 && cbOnce != 0) {
+			addV("OnPut/once-listener-count", fmt.Sprintf("once-only listener fired %d times for %d Puts", cbOnce, puts), nil)
+		}
 	}
 
 	// ---- interval rules for the terminal operation
